@@ -401,6 +401,8 @@ class Program:
 
     def resolve_import(self, mod, kind, level, target, name):
         if kind == "from" and level >= 1:
+            if target == "_support" and name == "await_":
+                return Builtin("await_")
             if target is None:
                 return self.module(name)
             m = self.module(target)
@@ -938,9 +940,10 @@ class Interp:
                 return (yield from self.cm_op(aw.target, aw.arg[0], aw.arg[1], site))
             raise Unsupported(f"await pending {k}")
         if isinstance(aw, EnvAwaitable):
-            if aw.awaited:
+            done = aw.__dict__.setdefault("awaited_by", set())
+            if self.side in done:
                 raise PyRaise(ExcVal("RuntimeError", ident="cannot reuse already awaited coroutine"))
-            aw.awaited = True
+            done.add(self.side)
             resp = yield Ev("Await", aw, site=site)
             self.ctx.evseq += 1
             kind, payload = resp
@@ -1606,8 +1609,8 @@ class Frame:
     def s_For(self, s):
         it0 = yield from self.ev(s.iter)
         if isinstance(it0, (Source, GenObj)):
-            if self.i.side == "impl" and isinstance(it0, Source):
-                raise Unsupported("sync for over an environment source on the impl side")
+            if self.i.side == "impl" and isinstance(it0, Source) and it0.kind != "sync":
+                raise PyRaise(ExcVal("TypeError", ident="'async iterator' object is not iterable"))
             yield from self._for(s, it0, False)
             return
         it = native_iter(it0)
